@@ -167,7 +167,7 @@ def _init_unproved():
 
 _init_unproved()
 NAME_MODES = ['str', 'int0', 'empty0', 'person', 'tuple']
-REQUIRED_COUNTERS = (['score_fraction_counts', 'score_large_factor', 'scale', 'near_tie', 'equal_rational', 'beyond_2^53', 'modelled', 'qd_options', 'qd_policy_subtract', 'qd_prev_gains', 'qd_caps', 'ha_options', 'ha_prev_gains', 'ha_caps', 'ha_prev_at_least_votes', 'equal_quotients_three_or_more',
+REQUIRED_COUNTERS = (['score_fraction_counts', 'score_large_factor', 'scale', 'near_tie', 'equal_rational', 'beyond_2^53', 'modelled', 'qd_options', 'qd_policy_subtract', 'qd_prev_gains', 'qd_caps', 'ha_options', 'ha_prev_gains', 'ha_caps', 'ha_prev_at_least_votes', 'equal_quotients_three_or_more', 'mj_all_share_the_median', 'mj_step_size_decides',
                       'lr_equal_remainders', 'pure_total_below_one', 'approval_later_seat_level', 'threshold_boundary', 'coef_tie', 'coef_as_decimal', 'coef_as_float', 'exact_half_or_quota', 'odd_total_half', 'even_factor']
                      + ['m:' + f for f in PROVED_FAMILIES])      # every proved family is also run through its Lean model
 RULE = ('every scale-free evaluator family of the quantifier (plurality, divisor methods, largest remainder with exact quotas, '
@@ -292,6 +292,39 @@ def generate(rng, tier):
                 k = [2, 3, 7, 100, 10 ** 6, 10 ** 25 + 7][t % 6]
                 yield {'op': 'scale', 'family': f.name, 'prof': [[i, num_str(v)] for i, v in enumerate(vals)], 'n': n, 'k': str(k),
                        '_tags': ['scale', tag] + (['beyond_2^53'] if k > 2 ** 53 else [])}
+    # majority judgment, default tie-break: every candidate graded by everybody, ALL sharing the (lower) median grade, above-median
+    # grades held by two or more voters - the tie-break's removal step is computed from vote COUNTS, so it must scale with them
+    # (where the unchanged code itself is not scale-free the listed finding covers it only while implementation and model agree)
+    for t in range(60 if tier == 'quick' else 1200):
+        # the shape in which the size of the removal step decides: X and Y share the median `lo`; b >= 2 voters lift X far above it, a + b
+        # voters lift Y above it, so Y's median moves after ONE removal while X's moves only after a + 1
+        lo = rng.randint(0, 2)
+        a, b = rng.randint(1, 2), rng.randint(2, 3)
+        prof = [[[[0, lo], [1, lo]], str(a)], [[[0, lo + rng.randint(2, 3)], [1, lo]], str(b)], [[[0, lo], [1, lo + rng.randint(1, 2)]], str(a + b)]]
+        if rng.random() < 0.4:
+            g = rng.randint(0, 4)
+            prof = [[b_ + [[2, g]], w] for b_, w in prof]
+        rng.shuffle(prof)
+        yield {'op': 'scale', 'family': 'majority_judgment', 'prof': prof, 'n': 1, 'k': str([2, 3, 7, 10][t % 4]),
+               '_tags': ['scale', 'mj_all_share_the_median', 'mj_step_size_decides']}
+    for t in range(60 if tier == 'quick' else 1200):
+        m = rng.randint(2, 3)
+        for _try in range(200):
+            nb = rng.randint(2, 4)
+            prof = [[[[c, rng.randint(0, 4)] for c in range(m)], str(rng.randint(1, 3))] for _ in range(nb)]
+            if len({json.dumps(b) for b, _ in prof}) < nb:
+                continue
+            meds = []
+            for c in range(m):
+                gs = sorted(g for b, w in prof for cc, g in b if cc == c for _ in range(int(w)))
+                meds.append(gs[(len(gs) - 1) // 2])
+            if len(set(meds)) == 1 and any(int(w) > 1 and g > meds[0] for b, w in prof for _, g in b):
+                break
+        else:
+            continue
+        k = [2, 3, 7, 10][t % 4]          # the aggregation (and its model) expands one element per vote: small factors only
+        yield {'op': 'scale', 'family': 'majority_judgment', 'prof': prof, 'n': 1, 'k': str(k),
+               '_tags': ['scale', 'mj_all_share_the_median']}
     # highest averages with every argument of evaluate(): previous gains (also at least as large as the party's vote count: tiny
     # electorates, sub-unit rational counts, zero-vote parties) and caps, every divisor and modified first coefficients - the theorem
     # highestAverages_scale holds for every configuration, only the votes are scaled
